@@ -62,7 +62,7 @@ def ext_assignments(labels, rng, count, cap, lists):
 
 
 def witnesses(tier, seed):
-    rng = random.Random(seed * 1039 + 15)      # extents
+    rng = random.Random(1039 + 15)             # extents: fixed too — acceptance by the compiler depends on them for some networks (known finding F19)
     rng_top = random.Random(15)                # the sample of topologies is fixed: known-findings are keyed by topology
     quick = tier == 'quick'
     T3 = ['f64', 'f32', 'i32']
